@@ -42,7 +42,34 @@ def behaviours(ctx, n, depth):
     refit = [b for b in out if all(a['o'] in (0, 1) or a['a'] == 'Edit' for a in b) and sum(1 for a in b if a['a'] == 'Fit') >= 2 and len({a['s'] for a in b if a['a'] == 'Fit'}) == 1]
     refit.sort(key=lambda b: -len({(a['a'], a.get('f', '')) for a in b}))
     heavy = sorted([b for b in out if sum(1 for a in b if a['a'] == 'Fit') >= 2 and b not in refit[:n // 3]], key=score)
-    chosen = refit[:n // 3] + heavy[:n // 3]
+    # always among the chosen: for each method, sessions in which ONE object is fitted, its own threshold dictionary is edited (minimum cycle count
+    # resp. threshold level) while the burst options carry no minimum of their own, and the same signal is fitted again - the shortest route to stale state
+    def stale_route(b, method, field):
+        cur_tk, fitted, edited, bk_mnc = {}, {}, set(), 0
+        for a in b:
+            if a['a'] == 'New':
+                cur_tk[a['o']] = a['tk'] if a['method'] == method else None
+                fitted.pop(a['o'], None)
+            elif a['a'] == 'Rebind' and cur_tk.get(a['o']) is not None:
+                cur_tk[a['o']] = a['tk']
+            elif a['a'] == 'Edit' and a['o'] == 2 and a['method'] == 'mnc':
+                bk_mnc = a['v']
+            elif a['a'] == 'Edit' and a['method'] == field:
+                edited |= {o for o, tk in cur_tk.items() if tk == a['o'] and o in fitted}
+            elif a['a'] == 'Fit' and cur_tk.get(a['o']) is not None:
+                if a['o'] in edited and fitted.get(a['o']) == a['s'] and (bk_mnc == 0 or method == 'cycles'):
+                    return True
+                fitted[a['o']] = a['s']
+                edited.discard(a['o'])
+            elif a['a'] == 'Load':
+                fitted.pop(a['o'], None)
+        return False
+    routes = []
+    for method in ('amp', 'cycles'):
+        for field in ('mnc', 'lvl'):
+            routes += [b for b in out if stale_route(b, method, field)][:max(2, n // 40)]
+    routes = [b for k_, b in enumerate(routes) if b not in routes[:k_]]
+    chosen = routes + [b for b in refit[:n // 3] + heavy[:n // 3] if b not in routes]
     # the rest: greedy balanced cover of the functions / actions - each pick maximises the sum over its distinct functions of 1/(1 + times already picked)
     rest = [b for b in out if b not in chosen]
     sets = [frozenset((a.get('f', '') or a['a']) for a in b) for b in rest]
